@@ -10,7 +10,7 @@ import jax
 import jax.numpy as jnp
 import numpy as np
 
-from vcgen.harness import Contract, Instance, define, eq, ge, holds
+from vcgen.harness import Contract, Instance, define, eq, ge, holds, independent_of
 
 from . import gaussians as G
 from . import ivp
@@ -145,6 +145,9 @@ def step_contract(cfg: ivp.Cfg):
         cl += [eq("cached_linearisation_H", Hc, sp["H"]), eq("cached_linearisation_b", bc, sp["b"])]
         if cfg.strategy != "filter":
             cl += smoother_clauses(cfg, res, state, sp)
+            back_leaves = jax.tree_util.tree_leaves(state.solution_full.conditional)
+            for nm, val in (("mean", res.u.mean_flat), ("chol", res.u.cholesky_flat), ("time", res.t), ("cached_linearisation", law(L, res.fun_evals)[1])):
+                cl.append(independent_of(f"filtering_{nm}_independent_of_backward_model", val, back_leaves))
         if cfg.calib == "none":
             cl += [eq("output_scale_one", res.output_scale, 1.0)]
         if cfg.calib == "mle":
